@@ -408,5 +408,13 @@ fn main() {
         {"structure": "HyperLogLog b=4", "hashes_a": ["0x8000000000000000"], "hashes_b": ["0x0", "0xffffffffffffffff"], "checked": "merge == fresh fed both, commutative, idempotent, associative over all 2^24 triples"}
     ]));
     run.ev.set("rule", json!("Bloom: all ordered pairs and triples of reachable bit states with witness streams; CMS: all pairs (triples up to length 2) of sorted streams up to length 3 over the class universe; HLL: all pairs of subsets of an 8-hash universe for every b (all triples for b=4); QF: all ordered pairs of reachable states (bounded right operand for 8 slots), triples for <= 200 states; cuckoo: ordered pairs of reachable states x every RNG outcome against the multiset sum"));
+    // union / merge with an operand of another configuration or another hasher must be rejected (documented panic)
+    {
+        let (gc, gv) = checks::guards::incompatible_operands();
+        for v in gv {
+            run.violation(v);
+        }
+        run.ev.set("incompatible_operand_cases", serde_json::json!(gc));
+    }
     run.finish();
 }
